@@ -685,8 +685,11 @@ class NetCDF4(FileHandler):
         # xarray dataset.
 
         with netCDF4.Dataset(file_info.path, "r") as root:
-            # xarray decode_cf scales, don't do it twice!
+            # xarray decode_cf scales and masks, don't do it twice! (The
+            # masked arrays of netCDF4 turn integer variables into floats
+            # and values equal to a default fill value into NaN.)
             root.set_auto_scale(False)
+            root.set_auto_mask(False)
             dataset = xr.Dataset()
             self._load_group(dataset, None, root, fields)
 
